@@ -48,14 +48,17 @@ Definition show_sink (s : sink) : N := match s with SkNone => 0 | SkHeld => 1 | 
 Definition show_obs (o : oobs) := (ob_served o, ob_script_logs o, ob_other_logs o, show_sink (ob_sink o), ob_cb_ran o).
 Definition ccase_explain (dv : deviations) (c : ccase) := (map show_obs (model_obs dv c), map show_obs (cc_obs c), cc_others_ok c).
 
-(* ---------- load: a list of script files, loaded at start-up and again (all rewritten) by pyscript.reload ---------- *)
+(* ---------- load: script files loaded at start-up, then rewritten and loaded again by pyscript.reload: all of them
+   (lp_files = all files) or one named file through the targeted path (lp_files = that file) ---------- *)
 (* every file defines a @service and a trigger before the statement that may fail and another pair after it *)
 Record lphase := mkLPhase {
   lp_files : list outcome;     (* in load order *)
   lp_escaped : bool;           (* pyscript's setup / the reload service raised into Home Assistant *)
   lp_loaded : list bool;       (* observed: all four pieces of the file are registered and run when called / triggered *)
   lp_residue : list bool;      (* observed: at least one piece of the file is registered (hass.services, service_cnt) or runs *)
-  lp_logs : list N             (* observed: error records on the file's logger during this phase *)
+  lp_logs : list N;            (* observed: error records on the file's logger during this phase *)
+  lp_others_ok : bool          (* observed: every file NOT (re)loaded in this phase is exactly as live as before and logged nothing,
+                                  and a service name claimed by two files still belongs to, and runs, the first one *)
 }.
 Record lcase := mkLCase { lc_phases : list lphase }.
 
@@ -63,13 +66,14 @@ Definition lphase_model_ok (dv : deviations) (c : lphase) : bool :=
   let r := load_scripts dv (lp_files c) in
   if sink_none (l_sink r)
   then negb (lp_escaped c) && list_eqb Bool.eqb (l_loaded r) (lp_loaded c) && list_eqb Bool.eqb (l_loaded r) (lp_residue c)
-       && list_eqb N.eqb (l_script_logs r) (lp_logs c)
+       && list_eqb N.eqb (l_script_logs r) (lp_logs c) && lp_others_ok c
   else lp_escaped c.
 
 (* a file that failed to load is reported once and nothing of it stays registered or runs; every other file is complete *)
 Definition lphase_spec_ok (c : lphase) : bool :=
   load_ok (lp_files c) (mkL (lp_loaded c) (lp_logs c) (if lp_escaped c then SkHA else SkNone))
-  && list_eqb Bool.eqb (lp_residue c) (map (fun o => negb (raises o)) (lp_files c)).
+  && list_eqb Bool.eqb (lp_residue c) (map (fun o => negb (raises o)) (lp_files c))
+  && lp_others_ok c.
 
 Definition lcase_model_ok (dv : deviations) (c : lcase) : bool := forallb (lphase_model_ok dv) (lc_phases c).
 Definition lcase_spec_ok (c : lcase) : bool := forallb lphase_spec_ok (lc_phases c).
@@ -82,4 +86,4 @@ Definition lcase_attrib (dv : deviations) (c : lcase) : list nat :=
 
 Definition lcase_explain (dv : deviations) (c : lcase) :=
   map (fun p => let r := load_scripts dv (lp_files p) in
-                (l_loaded r, l_script_logs r, show_sink (l_sink r), (lp_escaped p, lp_loaded p, lp_residue p, lp_logs p))) (lc_phases c).
+                (l_loaded r, l_script_logs r, show_sink (l_sink r), (lp_escaped p, lp_loaded p, lp_residue p, lp_logs p, lp_others_ok p))) (lc_phases c).
